@@ -199,6 +199,17 @@ class C04Monitor(Monitor):
             worst = [c for c in calls if c.value == mn][0]
             w.flag(self.prop, "not_minimal", "%s at %s: best value %r but trial #%d at %r has value %r" % (a.aid, where, val, worst.idx, worst.y, mn), where)
             return
+        if locs and not a.fired_faults and not a.fired_lfaults and not (a.active and a.cb_depth == 0):
+            # (not judged from inside an objective evaluation: a refinement may be in progress)
+            # fault-free run: the refinement reports the best point it evaluated, so no completed evaluation - global or
+            # local - is smaller than the reported value (after a contained failure inside the refinement the global result
+            # legitimately stands while better local points were seen: not judged then)
+            mnl = min(c.value for c in locs)
+            if val > mnl and not any(c.phase == "pending" for c in a.calls):
+                worst = [c for c in locs if c.value == mnl][0]
+                w.flag(self.prop, "not_minimal_local", "%s at %s: best value %r but the refinement evaluated %r with the smaller value %r (call #%d)"
+                       % (a.aid, where, val, worst.y, mnl, worst.idx), where)
+                return
         # the best trial reported (and verified) at an earlier moment - possibly a locally refined point - is an
         # evaluated trial too: the current best may not be worse than it
         prev = self._best_seen.get(a.aid)
